@@ -2,6 +2,10 @@
 //! constructor of `outstation::database::Database` (`pub(crate) fn new`).  Exposes it, nothing else.
 use crate::outstation::database::{ClassZeroConfig, Database, EventBufferConfig};
 
-pub fn new_database(max_read_selection: Option<u16>, class_zero: ClassZeroConfig, events: EventBufferConfig) -> Database {
+pub fn new_database(
+    max_read_selection: Option<u16>,
+    class_zero: ClassZeroConfig,
+    events: EventBufferConfig,
+) -> Database {
     Database::new(max_read_selection, class_zero, events)
 }
